@@ -70,6 +70,15 @@ CHECKS.update({
             "DESIGN.md section 4, C06"),
 })
 
+CHECKS.update({
+    "C02": ("Hypothesis-generated rulebooks, device/target trees and merged generator ACLs; patch executed on the device simulator; reference ACL coverage as oracle",
+            "Patches computed under 1..3 merged generator ACLs are checked path by path against an independent coverage model and then "
+            "executed on the device simulator: uncovered rows must be untouched and rows covered only by not-deletable rules must keep "
+            "their key on the device. Exploration over generated inputs.",
+            "Trusted: vf/model/refacl.py, devsim.py; only logics emitting the row or its negation; mixed deletable/not-deletable matches not asserted.",
+            "DESIGN.md section 4, C02"),
+})
+
 NOT_YET = {}
 
 
